@@ -13,7 +13,7 @@
     decode, case of well-known community names, unsigned large-community fields). *)
 From Coq Require Import String ZArith.
 From YV Require Import lib.Base lib.Dec gen.Consts spec.RefCom
-  model.YExtCom model.YRestEc model.YCommunity model.YLargeCom proof.ComProofs.
+  model.YExtCom model.YRestEc model.YCommunity model.YLargeCom proof.ComProofs proof.ComLists.
 Open Scope N_scope.
 
 (** route-target *)
@@ -195,3 +195,71 @@ Print Assumptions C17_large_community.
 Example C17_large_text :
   large_parse (ref_large 4294967295 2147483648 0) = Ok [codes "4294967295:2147483648:0"].
 Proof. vm_compute. reflexivity. Qed.
+
+(** * ALL LISTS.  An attribute carries a sequence of values; the decoders, the views' recombination
+    and the encoders work value by value and carry nothing from one value to the next. *)
+
+(** the recombination of attr[16] is a map: what a member contributes does not depend on what
+    stands before or after it (e.g. two traffic-action texts with different flags) *)
+Theorem C17_rest_elementwise : forall cp l1 l2,
+  rest_ec cp (l1 ++ l2) =
+  rbind (rest_ec cp l1) (fun a => rbind (rest_ec cp l2) (fun b => ROk (a ++ b))).
+Proof. exact rest_ec_app. Qed.
+Print Assumptions C17_rest_elementwise.
+
+(** every list (1 to 31 members: one length octet, as ExtCommunity.construct packs it) of extended
+    communities that round-trip one by one (the theorems above) round-trips as a whole: the RFC
+    octets of the list decode to the list of texts, the view accepts that list and re-encodes it
+    to attribute 16 with exactly those octets *)
+Theorem C17_ext_community_lists : forall cp (l : list (ecval * str)),
+  l <> [] -> (length l < 32)%nat ->
+  Forall (fun p => c17_ec cp (fst p) (snd p)) l ->
+  ec_parse (ec_octets l) = Ok (map (fun p => Txt (snd p)) l) /\
+  exists its, rest_ec cp (map snd l) = ROk its /\
+    ec_construct its =
+    Ok (Some ([c_ATTR_ExtCommunity_FLAG; attr_ext_communities; 8 * N.of_nat (length l)] ++ ec_octets l)).
+Proof. exact c17_ec_list. Qed.
+Print Assumptions C17_ext_community_lists.
+(** the hypotheses are satisfiable by a list with two traffic-actions of different flags and a
+    route-origin between them, and the conclusion is about these texts *)
+Example C17_ext_community_lists_instance :
+  let l := [ (TrafficAction true false, action_text true false);
+             (RoAs2 100 1, codes "route-origin:100:1");
+             (TrafficAction false true, action_text false true) ] in
+  Forall (fun p => c17_ec (CapFba true) (fst p) (snd p)) l /\
+  map snd l = [codes "traffic-action:S:1,T:0"; codes "route-origin:100:1"; codes "traffic-action:S:0,T:1"] /\
+  ec_octets l = [128; 7; 0; 0; 0; 0; 0; 2;  0; 3; 0; 100; 0; 0; 0; 1;  128; 7; 0; 0; 0; 0; 0; 1].
+Proof.
+  cbv zeta. split; [|split; vm_compute; reflexivity].
+  repeat constructor.
+  - apply C17_traffic_action. exact I.
+  - apply (C17_route_origin_as2 true 100 1). split; reflexivity.
+  - apply C17_traffic_action. exact I.
+Qed.
+
+(** communities: every list of up to 63 values *)
+Theorem C17_community_lists : forall vs,
+  Forall (fun v => v < 4294967296) vs -> (length vs < 64)%nat ->
+  com_parse (com_octets vs) = Ok (map com_text vs) /\
+  com_construct (map com_text vs) =
+    Ok ([c_ATTR_Community_FLAG; attr_communities; 4 * N.of_nat (length vs)] ++ com_octets vs).
+Proof. exact c17_community_list. Qed.
+Print Assumptions C17_community_lists.
+
+(** large communities: every list of 1 to 21 values *)
+Theorem C17_large_community_lists : forall vs,
+  vs <> [] -> (length vs < 22)%nat -> Forall wf_large vs ->
+  large_parse (large_octets vs) = Ok (map large_show vs) /\
+  large_construct (map large_show vs) =
+    Ok ([c_ATTR_LargeCommunity_FLAG; attr_large_communities; 12 * N.of_nat (length vs)] ++ large_octets vs).
+Proof. exact c17_large_list. Qed.
+Print Assumptions C17_large_community_lists.
+Example C17_lists_nonvacuous :
+  Forall (fun v => v < 4294967296) [4294967041; 4259840100; 4294967041] /\
+  map com_text [4294967041; 4259840100] = [codes "NO_EXPORT"; codes "65000:100"] /\
+  Forall wf_large [(1, 2, 3); (1, 2, 4); (4294967295, 2147483648, 0)] /\
+  map large_show [(1, 2, 3); (1, 2, 4)] = [codes "1:2:3"; codes "1:2:4"].
+Proof.
+  split; [repeat constructor|]. split; [vm_compute; reflexivity|].
+  split; [repeat constructor|]. vm_compute; reflexivity.
+Qed.
